@@ -593,11 +593,39 @@ def has_all_nan_row(dfs, ub, n):
 PAST, FUTURE = D0, datetime.datetime(2090, 1, 1)
 
 
+def gen_spell(rng, tier):
+    """BOUNDS IN OTHER SPELLINGS (round l4, review w4 F3 / item 5; spell lines, implementation only): the lines of the other generators
+    with every missing bound spelled as the missing DATE (pd.NaT, np.datetime64('NaT'), 'NaT': "a missing bound being unbounded")
+    or every date bound spelled as a Timestamp / datetime64[us, ns, D] / date / yyyymmdd integer / string ("given as dates"); the
+    answer must be the one of the None / datetime spelling, which is the one compared with the model"""
+    n = 160 if tier == 'quick' else 4000
+    its = [g(rng, 'quick') for g in (gen_single, gen_stitch, gen_members, gen_slices)]
+    made = 0
+    while made < n and its:
+        it = rng.choice(its)
+        try:
+            c = next(it)
+        except StopIteration:
+            its.remove(it)
+            continue
+        line = c['lines'][0]
+        has_none = ' N ' in line[:-8] or '(L N ' in line or ' N) ' in line      # a missing bound somewhere (the last atom is the bracket word / n)
+        if rng.random() < 0.6:
+            if not has_none:
+                continue
+            word = rng.choice(sorted(SPELL_NAT))
+        else:
+            # a scalar MEMBER becomes pd.Series(scalar, boundaries): with bounds that pandas does not read as stamps it is no timeseries
+            word = rng.choice(['stamp', 'np-us', 'np-ns'] if line.startswith('(slice stitchm ') else sorted(SPELL_DATE))
+        made += 1
+        yield dict(tag='spell/%s/%s' % (word, c.get('tag', '').split('+')[0][:24]), lines=['(slice spell %s %s)' % (word, line)])
+
+
 def generate(rng, tier):
     """one case in four is dated in the future (2090): a missing bound must stay unbounded, it is not "now" """
     global D0
     try:
-        for g in (gen_single, gen_stitch, gen_members, gen_slices):
+        for g in (gen_spell, gen_single, gen_stitch, gen_members, gen_slices):
             it = g(rng, tier)
             while True:
                 D0 = FUTURE if rng.random() < 0.25 else PAST
@@ -623,27 +651,67 @@ def _quiet():
     logging.getLogger('pyg').setLevel(logging.ERROR)      # is_ts logs every unsorted series it meets
 
 
-def run_line(state, sx):
+SPELL_NAT = {'nat-pd': lambda: pd.NaT, 'nat-np': lambda: np.datetime64('NaT'), 'nat-np-us': lambda: np.datetime64('NaT', 'us'), 'nat-str': lambda: 'NaT'}
+_midnight = lambda d: (d.hour, d.minute, d.second, d.microsecond) == (0, 0, 0, 0)
+SPELL_DATE = {'stamp': lambda d: pd.Timestamp(d),
+              'np-us': lambda d: np.datetime64(d, 'us'),
+              'np-ns': lambda d: np.datetime64(d, 'ns'),
+              'np-D': lambda d: np.datetime64(d, 'D') if _midnight(d) else np.datetime64(d, 's'),
+              'date': lambda d: d.date() if _midnight(d) else d,
+              'int': lambda d: (d.year * 10000 + d.month * 100 + d.day) if _midnight(d) else d,
+              'str': lambda d: d.strftime('%Y-%m-%d') if _midnight(d) else d.isoformat()}
+SPELLINGS = sorted(SPELL_NAT) + sorted(SPELL_DATE)
+
+
+def spell(word):
+    """the same bound(s) in another spelling: nat-*: every MISSING bound (None) as the missing date NaT; the others: every date bound
+    as a Timestamp / datetime64 / date / yyyymmdd integer / string (date, int only at midnight).  Times of day stay"""
+    def conv(b):
+        if isinstance(b, list):
+            return [conv(x) for x in b]
+        if b is None:
+            return SPELL_NAT[word]() if word in SPELL_NAT else None
+        if isinstance(b, datetime.datetime) and word in SPELL_DATE:
+            return SPELL_DATE[word](b)
+        return b
+    return conv
+
+
+def run_line(state, sx, conv=lambda b: b):
     from pyg_base import df_slice, df_unslice
     _quiet()
     op, args = sx[1], sx[2:]
+    if op == 'spell':      # bounds in another spelling (implementation only): the same answer as the plain line (review w4 F3 / item 5)
+        word, inner = args[0], args[1]
+        try:
+            want = run_line(state, inner)
+        except Exception:
+            return 'ok spell-not-answered'            # not an input of this law: the plain spelling is not answered either
+        try:
+            got = run_line(state, inner, spell(word))
+        except Exception as e:
+            return 'violation %s: the bounds spelled %s raised %s: %s; spelled None / datetime the answer is %s' % (inner[1], word, type(e).__name__, str(e)[:100], want[:300])
+        if got != want:
+            return 'violation %s: with the bounds spelled %s%s%s, spelled None / datetime it is %s' % (inner[1], word, SPELL_MSG, got[:300], want[:300])
+        return 'ok spell-checked ' + want[3:]
+    convl = lambda b: b if b is None else conv(b)      # a bound-LIST argument that is not given stays not given
     if op == 'one':
         s = dec_ts(args[0])
-        return 'ok ' + enc_result(call_slice(s, dec_bound(args[1]), dec_bound(args[2]), args[3]))
+        return 'ok ' + enc_result(call_slice(s, conv(dec_bound(args[1])), conv(dec_bound(args[2])), args[3]))
     if op == 'onef':
         f = dec_frame(args[0])
-        return 'ok ' + enc_frame(call_slice(f, dec_bound(args[1]), dec_bound(args[2]), args[3]))
+        return 'ok ' + enc_frame(call_slice(f, conv(dec_bound(args[1])), conv(dec_bound(args[2])), args[3]))
     if op == 'stitch':
         dfs = [dec_ts(x) for x in args[0][1:]]
         n = int(args[4][2:])
-        return 'ok ' + enc_frame(call_slice(dfs, dec_dates(args[1]), dec_dates(args[2]), args[3], n=n))
+        return 'ok ' + enc_frame(call_slice(dfs, convl(dec_dates(args[1])), convl(dec_dates(args[2])), args[3], n=n))
     if op == 'stitchm':
         ms = [dec_member(x) for x in args[0][1:]]
         n = int(args[4][2:])
-        return 'ok ' + enc_frame(call_slice(ms, dec_blist(args[1]), dec_blist(args[2]), args[3], n=n))
+        return 'ok ' + enc_frame(call_slice(ms, convl(dec_blist(args[1])), convl(dec_blist(args[2])), args[3], n=n))
     if op == 'slices':
         s = dec_ts(args[0])
-        r = call_slice(s, dec_barg(args[1]), dec_barg(args[2]), args[3])
+        r = call_slice(s, convl(dec_barg(args[1])), convl(dec_barg(args[2])), args[3])
         if r is None:
             return 'ok N'
         if isinstance(r, list):
@@ -651,7 +719,7 @@ def run_line(state, sx):
         return 'ok (T %s)' % enc_result(r)
     if op == 'roundtrip':
         dfs = [dec_ts(x) for x in args[0][1:]]
-        ub = dec_dates(args[1])
+        ub = convl(dec_dates(args[1]))
         n = int(args[2][2:])
         f = df_slice(dfs, ub=ub, n=n)
         if f is None:
@@ -666,6 +734,8 @@ def run_line(state, sx):
 def compare(case, i, line, ir, mr):
     sx = proto.parse(line)
     op = sx[1]
+    if op == 'spell':          # implementation only: the model has one spelling of a bound
+        return None if ir.startswith('ok') else ir[len('violation '):] if ir.startswith('violation ') else 'spell line did not return: %s' % ir
     rt = None
     if op == 'roundtrip' and ir.startswith('ok (T'):
         isx = proto.parse(ir[3:])
@@ -690,6 +760,7 @@ def compare(case, i, line, ir, mr):
     return 'implementation %s, specification (model) %s' % (ir, mr)
 
 
+SPELL_MSG = ' the answer is '
 RT_MSG = 'stitching the series recovered by df_unslice does not reproduce the frame'
 MODEL_DIFFERS = 'moreover the specification (model) answers differently'
 
